@@ -1689,6 +1689,74 @@ func (e *nenum) hoistArgs(fr *nframe, ce *ast.CallExpr) *ast.CallExpr {
 	return out
 }
 
+// hoistLits: a helper with a body of its own that is called for the value of a field in a composite literal on the
+// right-hand side of an assignment is computed first (`pe := &T{prefix: p.prefixOf(pos)}` reads like
+// `t := p.prefixOf(pos); pe := &T{prefix: t}`).
+func (e *nenum) hoistLits(fr *nframe, as *ast.AssignStmt) *ast.AssignStmt {
+	var out *ast.AssignStmt
+	for i, rh := range as.Rhs {
+		inner := stripParens(rh)
+		addr := false
+		if ue, ok := inner.(*ast.UnaryExpr); ok && ue.Op == token.AND {
+			inner, addr = stripParens(ue.X), true
+		}
+		cl, ok := inner.(*ast.CompositeLit)
+		if !ok {
+			continue
+		}
+		var ncl *ast.CompositeLit
+		for k, el := range cl.Elts {
+			val := el
+			kv, isKV := el.(*ast.KeyValueExpr)
+			if isKV {
+				val = kv.Value
+			}
+			ac, ok := stripParens(val).(*ast.CallExpr)
+			if !ok {
+				continue
+			}
+			d := e.helperOf(fr, ac)
+			if d == nil || d.Type.Results == nil || len(d.Type.Results.List) != 1 || len(d.Type.Results.List[0].Names) > 1 || (len(d.Body.List) < 2 && e.closureLex[d] == nil) {
+				continue
+			}
+			if ncl == nil {
+				cp := *cl
+				cp.Elts = append([]ast.Expr{}, cl.Elts...)
+				ncl = &cp
+			}
+			*e.counter++
+			name := fmt.Sprintf("hoisted%d", *e.counter)
+			id := ast.NewIdent(name)
+			fr.multi[name] = fmt.Sprintf("$%d", *e.counter)
+			e.inline(fr, e.hoistArgs(fr, ac), d, []ast.Expr{id}, token.ASSIGN, false)
+			if isKV {
+				nkv := *kv
+				nkv.Value = id
+				ncl.Elts[k] = &nkv
+			} else {
+				ncl.Elts[k] = id
+			}
+		}
+		if ncl == nil {
+			continue
+		}
+		if out == nil {
+			cp := *as
+			cp.Rhs = append([]ast.Expr{}, as.Rhs...)
+			out = &cp
+		}
+		if addr {
+			out.Rhs[i] = &ast.UnaryExpr{Op: token.AND, X: ncl}
+		} else {
+			out.Rhs[i] = ncl
+		}
+	}
+	if out == nil {
+		return as
+	}
+	return out
+}
+
 // hoistCond: a condition that is (the negation of) a call of a package helper with a body of its own is decided by
 // expanding the helper first: `if changed(x) {` reads like `c := changed(x); if c {`.
 func (e *nenum) hoistCond(fr *nframe, cond ast.Expr) ast.Expr {
@@ -2039,6 +2107,7 @@ func (e *nenum) stmt(fr *nframe, s ast.Stmt) {
 			e.stmt(fr, syn)
 			return
 		}
+		x = e.hoistLits(fr, x)
 		if len(x.Rhs) == 1 {
 			if ce, ok := x.Rhs[0].(*ast.CallExpr); ok {
 				if d := e.helperOf(fr, ce); d != nil && d.Type.Results != nil {
